@@ -463,6 +463,10 @@ func parseTraversalStep(nativeStep hcl.Traverser, from inputTokens) (before inpu
 			key := newNumber(valToken)
 			step.key = children.Append(key)
 			children.AppendUnstructuredTokens(valAfter.Tokens())
+		default:
+			// Other literal keys (true, false, null) have no structured
+			// representation, but their tokens must still be preserved.
+			children.AppendUnstructuredTokens(keyTokens.Tokens())
 		}
 
 		children.AppendUnstructuredTokens(cBrack.Tokens())
